@@ -89,7 +89,7 @@ class C12(vlib.Spec):
     prop = "C12"
     lean_modules = ["Banyan.Props.C12", "Banyan.Tie.C12"]
     theorems = ["Banyan.C12." + t for t in [
-        "int64_ordered", "int64_roundtrip", "int16_roundtrip", "int32_ordered", "int32_roundtrip", "int64ToBytes_injective",
+        "int64_ordered", "int64_roundtrip", "int16_roundtrip", "timestampSortKey_ordered", "int32_ordered", "int32_roundtrip", "int64ToBytes_injective",
         "float64_roundtrip", "float64_ordered", "float64_lt_imp", "float64_legacy_counterexample",
         "float64_legacy_nan_counterexample", "float64_legacy_partial",
         "entity_value_roundtrip", "series_roundtrip", "series_marshal_injective", "seriesID_deterministic"]] + [
@@ -104,6 +104,7 @@ class C12(vlib.Spec):
         "pbgen-regenerated protobuf Go code (modelv1.TagValue)",
         "xxhash (series id = hash of marshalled buffer; collision-freedom NOT assumed)",
         "Go encoding/binary, math.Float64bits",
+        "sort-key sites tied by correspondence: pkg/query/logical/trace newComparableTraceResult, pkg/query/vectorized/trace NewMergeItem, pbv1.MarshalTagValue (int, timestamp)",
     ]
     assumptions = ["IEEE-754 comparison `f >= 0` is modelled on bit patterns (geZero)",
                    "timestamp entity values are covered as int64 nanoseconds only",
@@ -130,6 +131,19 @@ class C12(vlib.Spec):
             out.append("f64 %016x %016x" % (a, b))
         for _ in range(n // 40):
             out.append("i16 %d" % (rng.choice([0, 1, -1, 127, 128, -128, 255, 256, 32767, -32768]) if rng.random() < 0.5 else rng.randrange(-2**15, 2**15)))
+        for _ in range(n // 10):
+            a = rng.choice(I64) if rng.random() < 0.5 else rng.randrange(-2**63, 2**63)
+            r = rng.random()
+            b = rng.choice(I64) if r < 0.4 else (max(-2**63, min(2**63 - 1, a + rng.choice([-1, 1, 0, 256, -256]))) if r < 0.7 else rng.randrange(-2**63, 2**63))
+            out.append("sk %s %d %d" % (rng.choice(["trace", "vtrace", "tag"]), a, b))
+        for _ in range(n // 20):
+            sa = rng.choice([0, -1, 1, -2, 1700000000, -1700000000, 9223372035, -9223372035]) if rng.random() < 0.6 else rng.randrange(-9223372035, 9223372035)
+            na = rng.choice([0, 1, 500000000, 999999999]) if rng.random() < 0.6 else rng.randrange(0, 10**9)
+            r = rng.random()
+            sb = sa if r < 0.5 else (sa + rng.choice([-1, 1]) if r < 0.8 else rng.randrange(-9223372035, 9223372035))
+            sb = max(-9223372035, min(9223372035, sb))   # keep sec*1e9+nanos inside int64 (the hypothesis of timestampSortKey_ordered)
+            nb = rng.choice([0, 1, 500000000, 999999999]) if rng.random() < 0.6 else rng.randrange(0, 10**9)
+            out.append("skts %d %d %d %d" % (sa, na, sb, nb))
         m = n - len(out)
         for _ in range(m // 2):
             s = rand_series(rng)
@@ -154,6 +168,18 @@ class C12(vlib.Spec):
                 return ("violation", "%s order: enc(%d)<enc(%d) is %s" % (f[0], a, b, o[2]))
             if (o[0] == o[1]) != (a == b):
                 return ("violation", "%s encoding not injective" % f[0])
+            return None
+        if f[0] == "sk":
+            a, b = int(f[2]), int(f[3])
+            if (o[2] == "1") != (a < b):
+                return ("violation", "sort key (%s): key(%d)<key(%d) is %s" % (f[1], a, b, o[2]))
+            if (o[0] == o[1]) != (a == b):
+                return ("violation", "sort key (%s) not injective" % f[1])
+            return None
+        if f[0] == "skts":
+            ia, ib = int(f[1]) * 10**9 + int(f[2]), int(f[3]) * 10**9 + int(f[4])
+            if (o[2] == "1") != (ia < ib):
+                return ("violation", "timestamp tag sort key: %s.%s vs %s.%s byte order %s, time order %s" % (f[1], f[2], f[3], f[4], o[2], ia < ib))
             return None
         if f[0] == "i16":
             return None if int(o[1]) == int(f[1]) else ("violation", "int16 round trip: %s -> %s" % (f[1], o[1]))
@@ -187,6 +213,8 @@ class C12(vlib.Spec):
     def nontrivial(self, line, g):
         f = line.split()
         if f[0] in ("i64", "i32", "f64") and f[1] == f[2]:
+            return None
+        if f[0] == "sk" and f[2] == f[3]:
             return None
         return line
 
